@@ -259,3 +259,32 @@ Section Proofs.
     destruct H as [(_ & _ & _ & _ & Hx) Hch]. destruct (apply_counts_vsum c nS Hc n' x 0 Hl) as [E1 E2].
     rewrite <- Hx in E1, E2. split; [exact E1|]. rewrite <- E1. apply (IH x' t' E2 Hch). Qed.
 End Proofs.
+
+(* ---------------- "x + V n" entry-wise: the fold used in [good] is the matrix-vector product ---------------- *)
+Section Entrywise.
+  Notation update := (update true).
+  Notation apply_counts := (apply_counts true).
+  Lemma nth_vadd a b i : length a = length b -> nth i (vadd a b) 0 = nth i a 0 + nth i b 0.
+  Proof. revert b i; induction a as [|x r IH]; intros [|y s] i H; simpl in *; try discriminate.
+    - destruct i; ring.
+    - destruct i; [reflexivity|]. apply IH. congruence. Qed.
+  Lemma nth_vscale c v i : nth i (vscale c v) 0 = c * nth i v 0.
+  Proof. revert i; induction v as [|y s IH]; intros [|i]; simpl; try ring; auto. Qed.
+  Lemma nth_update x cl n i : (cl = [] \/ length cl = length x) ->
+    nth i (update x cl n) 0 = nth i x 0 + zq n * nth i cl 0.
+  Proof. unfold Stoch.update. intros [E | E].
+    - subst cl. simpl. rewrite vadd_nil. destruct i; simpl; ring.
+    - rewrite nth_vadd by (rewrite vscale_length; congruence). rewrite nth_vscale. reflexivity. Qed.
+  Definition dims_ok (c : cfg) (nS : nat) := Forall (fun cl => length cl = nS) (V c).
+  Lemma col_dims c nS j : dims_ok c nS -> col c j = [] \/ length (col c j) = nS.
+  Proof. intros H. unfold col. destruct (nth_in_or_default j (V c) []) as [Hin | E0]; [|left; exact E0].
+    right. unfold dims_ok in H. rewrite Forall_forall in H. apply H, Hin. Qed.
+  Fixpoint vn_entry (c : cfg) (i k : nat) (n : list Z) : Qc :=
+    match n with [] => 0 | nj :: r => zq nj * nth i (col c k) 0 + vn_entry c i (S k) r end.
+  (* entry i of the new state = x_i + sum_j n_j * V[i][j] *)
+  Theorem apply_counts_entry c nS : dims_ok c nS -> forall n x k i, length x = nS ->
+    nth i (apply_counts c x k n) 0 = nth i x 0 + vn_entry c i k n.
+  Proof. intros Hd. induction n as [|nj r IH]; intros x k i Hl; simpl; [ring|].
+    rewrite IH by (rewrite update_length; exact Hl).
+    rewrite nth_update; [ring|]. destruct (col_dims c nS k Hd) as [E | E]; [left; exact E | right; congruence]. Qed.
+End Entrywise.
